@@ -22,6 +22,10 @@ GUARDS = [
     (r"S\.labelsOKB = true", "(family_labelsOK _ {hS})"),
     (r"textStableC S = true", "(family_textStableC _ {hS})"),
     (r"S\.closableB = true", "(family_closable _ {hS})"),
+    (r"joinCompatB S = true", "(family_joinCompat _ {hS})"),
+    (r"reopenOKB S = true", "(family_reopenOK _ {hS})"),
+    (r"textAbsorbB S = true", "(family_textAbsorb _ {hS})"),
+    (r"inlineUniformB S = true", "(family_inlineUniform _ {hS})"),
     (r"PM\.FromDom\.leafOkB S = true", "(family_leafOk _ {hS})"),
     (r"PM\.FromDom\.textStableB S = true", "(family_textStable _ hS)"),
     (r"C01\.TextStable S", "(textLoop_of_B _ (family_textLoop _ {hS})).stable"),
@@ -66,7 +70,10 @@ TARGETS = {
             "fit_emits_valid_payload", "payloadInv_step_gen", "fit_emits_valid_payload_cut", "fit_replace_recorded_valid",
             "delete_recorded_valid", "fit_no_raise_partial", "fit_raise_sites",
             "trivialFit_delete_applies", "delete_applies_flat", "delete_never_raises_flat",
-            "fit_step_returns", "startSite_exact", "fit_no_raise_while", "fit_no_raise", "fit_no_raise_emits", "fit_raises_only_at_sites"],
+            "fit_step_returns", "startSite_exact", "fit_no_raise_while", "fit_no_raise", "fit_no_raise_emits", "fit_raises_only_at_sites",
+            "delete_applies", "delete_never_raises", "deleteRange_applies", "deleteRange_never_raises",
+            "replaceRange_delete_applies", "trivialFit_replace_applies", "replace_never_raises_flat",
+            "insertInline_never_raises_flat", "replace_applies_direct", "insertInline_never_raises_direct_partial"],
     "C12": ["canJoin_join_applies", "liftTarget_lift_applies_flat", "liftTarget_lift_applies", "insertPoint_insert_applies",
             "dropPoint_drop_applies_closed", "joinPoint_join_applies", "insertPoint_insert_text_applies",
             "insertPoint_insert_marked_top"],
@@ -189,7 +196,7 @@ def gen(prop):
                     concl = re.sub(r"\bdfas\b", "(S.nodes.toList.map (·.dfa))", concl)
                 continue
             if hit is not None:
-                if "family_textStable _" in hit:
+                if "family_textStable _" in hit:        # (not `family_textStableC`, which holds of the whole family)
                     used_dom = True
                 args += [hit] * len(names)
                 continue
